@@ -881,7 +881,11 @@ class Interp:
             elif isinstance(it, SetObj):
                 seq = list(it.items)
             else:
-                raise _NotConcrete()
+                # abstract sources (a range of instants, the interactions of the graph, ...): the world may offer
+                # generic elements, one per role an element can play
+                seq = self.w.generic_elements(self, it, e)
+                if seq is None:
+                    raise _NotConcrete()
             for x in seq:
                 env3 = dict(env2)
                 self.assign(g.target, x, env3)
@@ -1170,6 +1174,27 @@ class Interp:
                 if k in obj.entries:
                     return obj.entries[k]
                 return args[1] if len(args) == 2 else NONE
+            if name == "pop" and 1 <= len(args) <= 2:
+                k = self.dict_key(args[0], node)
+                if k in obj.entries:
+                    if obj.persistent:
+                        self.w.effect(("heap_del", obj.tag, repr(k)), node)
+                    return obj.entries.pop(k)
+                if len(args) == 2:
+                    return args[1]
+                raise AbstractRaise("KeyError", node, detail="pop of a missing key %r" % (k,))
+            if name == "setdefault" and 1 <= len(args) <= 2:
+                k = self.dict_key(args[0], node)
+                if k not in obj.entries:
+                    if obj.persistent:
+                        self.w.effect(("heap_write", obj.tag, repr(k), "setdefault"), node)
+                    obj.entries[k] = args[1] if len(args) == 2 else NONE
+                return obj.entries[k]
+            if name == "clear" and not args:
+                if obj.persistent:
+                    self.w.effect(("heap_del", obj.tag, "clear"), node)
+                obj.entries.clear()
+                return NONE
             if name == "items" and not args:
                 return ListObj([TupleV([k, v]) for k, v in obj.entries.items()])
             if name == "keys" and not args:
